@@ -380,6 +380,14 @@ def replay(cls, cfg, seed=0):
                     m.train(); out = None
                 elif op == "eval":
                     m.eval(); out = None
+                elif op == "snapshot":
+                    snap, snap_state, out = m.state_dict(), (state[1], state[2].clone(), state[3].clone()), None
+                elif op == "restore":
+                    fresh = NM.ActNorm(D).double()
+                    fresh.load_state_dict(snap)
+                    fresh.train(state[0])
+                    m, out = fresh, None
+                    state = (state[0], snap_state[0], snap_state[1].clone(), snap_state[2].clone())
                 else:
                     with torch.no_grad():
                         out = (m(xb) if op == "forward" else m.inverse(xb))[0]
@@ -527,6 +535,22 @@ def job_history(cfg):
                 m.eval()
                 ref["training"] = False
                 continue
+            if op == "snapshot":
+                # what a user keeps for later: the dict the real state_dict() returns (torch hands out references)
+                snap = m.state_dict()
+                ref_snap = {"initialized": ref["initialized"], "ls": Sym(ref["ls"].a.copy()), "sh": Sym(ref["sh"].a.copy())}
+                continue
+            if op == "restore":
+                # a fresh layer restored from the snapshot stands where the snapshot was taken
+                fresh = NM.ActNorm(D)
+                TK.symbolize(fresh, prefix="fresh%d_" % step)
+                fresh.load_state_dict(snap)
+                fresh.train(ref["training"])
+                m = fresh
+                ref.update(ref_snap)
+                ref["ls"], ref["sh"] = Sym(ref_snap["ls"].a.copy()), Sym(ref_snap["sh"].a.copy())
+                cx.check("step%d:restore/initialized-flag" % step, bool(m.initialized) == ref["initialized"], "restored flag %s, flag when the snapshot was taken %s" % (bool(m.initialized), ref["initialized"]))
+                continue
             means, vars_, n = batch_stats(x)
             will_init = op == "forward" and ref["training"] and not ref["initialized"]
             if will_init:
@@ -577,6 +601,11 @@ def configs(tier):
                 continue
             cfgs.append({"cls": "history", "ops": list(ops), "shape": [2, 1], "timeout": t})
     cfgs.append({"cls": "history", "ops": ["eval", "forward", "train", "forward", "forward"], "shape": [2, 2, 1, 2], "timeout": t})
+    # snapshots of the state dict taken at some point and restored into a fresh layer later
+    for pre in ((), ("forward",), ("eval", "forward"), ("eval", "forward", "train")):
+        for mid in (("forward",), ("forward", "eval"), ("eval",), ("inverse",)):
+            for post in (("forward",), ("train", "forward"), ("forward", "forward")):
+                cfgs.append({"cls": "history", "ops": list(pre) + ["snapshot"] + list(mid) + ["restore"] + list(post), "shape": [2, 1], "timeout": t})
     shapes_b = [(2, 1), (3, 2)] if tier == "quick" else [(2, 1), (3, 1), (2, 2), (3, 2), (4, 1)]
     for training, op in itertools.product((True, False), OPS):
         for shape in shapes_b:
@@ -590,7 +619,7 @@ def main():
     rep = C.Report(PROP, level="model_checking")
     cfgs = configs(C.TIER)
     rep.functions = C.source_hash([NM.ActNorm, NM.BatchNorm])
-    rep.bounds = {"ActNorm_histories": "every operation sequence of length <= %d over {train, eval, forward, inverse} from the constructor state on one object, symbolic batches, lock-step with the reference" % (3 if C.TIER == "quick" else 4), "ActNorm": "abstract states training x initialised (4), operations %s, batches %s" % (list(OPS), sorted({tuple(c["shape"]) for c in cfgs if c["cls"] == "ActNorm"})), "BatchNorm": "states training (2), same operations, batches %s, symbolic momentum in (0,1)" % sorted({tuple(c["shape"]) for c in cfgs if c["cls"] == "BatchNorm"})}
+    rep.bounds = {"ActNorm_histories": "every operation sequence of length <= %d over {train, eval, forward, inverse} from the constructor state on one object (plus 48 histories with a state-dict snapshot restored into a fresh layer later), symbolic batches, lock-step with the reference" % (3 if C.TIER == "quick" else 4), "ActNorm": "abstract states training x initialised (4), operations %s, batches %s" % (list(OPS), sorted({tuple(c["shape"]) for c in cfgs if c["cls"] == "ActNorm"})), "BatchNorm": "states training (2), same operations, batches %s, symbolic momentum in (0,1)" % sorted({tuple(c["shape"]) for c in cfgs if c["cls"] == "BatchNorm"})}
     rep.assumptions = ["one inductive step from an arbitrary symbolic state covers histories of every length", "the batch that triggers the data-dependent initialisation is not constant in any feature (its variance is > 0)", "exact real arithmetic; std is the non-negative root of the unbiased variance", "the reference transition functions were written from the docstrings (Glow actnorm, momentum rule)"]
     rep.stubs = ["parameters / running statistics / momentum replaced by symbols"]
     trans = 0
